@@ -99,6 +99,8 @@ var c09HeaderPairs = []c09HeaderPair{
 	{Name: "xa-two-lines-identical", Vary: []string{"X-A"}, A: map[string][]string{"X-A": {"1", "2"}}, B: map[string][]string{"X-A": {"1", "2"}}},
 	{Name: "ua-two-lines-identical", Vary: []string{"User-Agent"}, A: map[string][]string{"User-Agent": {"a/1", "b/2"}}, B: map[string][]string{"User-Agent": {"a/1", "b/2"}}},
 	{Name: "cookie-two-lines", Vary: []string{"Cookie"}, A: map[string][]string{"Cookie": {"a=1", "b=2"}}, B: map[string][]string{"Cookie": {"a=1", "b=2"}}},
+	{Name: "obs-text-value", Vary: []string{"X-A"}, A: map[string][]string{"X-A": {"caf\xe9"}}, B: map[string][]string{"X-A": {"caf\xe9"}}},
+	{Name: "obs-text-ua", Vary: []string{"User-Agent"}, A: map[string][]string{"User-Agent": {"App\xff/1"}}, B: map[string][]string{"User-Agent": {"app\xff/1"}}},
 	{Name: "name-like-values", Vary: []string{"X-A, X-B"}, A: map[string][]string{"X-A": {"1X-B"}, "X-B": {"2"}}, B: map[string][]string{"X-A": {"1X-B"}, "X-B": {"2"}}},
 }
 
